@@ -135,7 +135,8 @@ def find_mutations(fi, pname):
                 t, v = s.targets[0].id, s.value
                 is_alias = (isinstance(v, ast.Name) and v.id in aliases) or \
                     (isinstance(v, ast.Call) and method_name(v) in ALIAS_CALLS and v.args and isinstance(v.args[0], ast.Name) and v.args[0].id in aliases) or \
-                    (isinstance(v, ast.IfExp) and any(isinstance(b, ast.Name) and b.id in aliases for b in (v.body, v.orelse)))
+                    (isinstance(v, ast.IfExp) and any(isinstance(b, ast.Name) and b.id in aliases for b in (v.body, v.orelse))) or \
+                    (isinstance(v, ast.BoolOp) and any(isinstance(b, ast.Name) and b.id in aliases for b in v.values))
                 if is_alias and t not in aliases:
                     aliases.add(t)
                     changed = True
@@ -143,7 +144,9 @@ def find_mutations(fi, pname):
         if isinstance(s, ast.Assign) and len(s.targets) == 1 and isinstance(s.targets[0], ast.Name) and s.targets[0].id in aliases:
             v = s.value
             is_alias = (isinstance(v, ast.Name) and v.id in aliases) or \
-                (isinstance(v, ast.Call) and method_name(v) in ALIAS_CALLS and v.args and isinstance(v.args[0], ast.Name) and v.args[0].id in aliases)
+                (isinstance(v, ast.Call) and method_name(v) in ALIAS_CALLS and v.args and isinstance(v.args[0], ast.Name) and v.args[0].id in aliases) or \
+                (isinstance(v, ast.IfExp) and any(isinstance(b, ast.Name) and b.id in aliases for b in (v.body, v.orelse))) or \
+                (isinstance(v, ast.BoolOp) and any(isinstance(b, ast.Name) and b.id in aliases for b in v.values))
             if not is_alias:
                 fresh_at.setdefault(s.targets[0].id, []).append(s)       # rebound to something that is not the caller's object
     out = []
